@@ -87,6 +87,14 @@ def check(run):
         elif any((astq.refname(x) or "").endswith("::keywords") for x in astq.walk(c)):
             cf = astq.canon(c)
             seen.add("keyword")
+            # a look-up that presupposes an ordered table (binary search) is only a membership test if the initialiser IS ordered
+            if any(re.match(r"^std::(binary_search|lower_bound|upper_bound|equal_range)<", cl) for cl in callees):
+                seq = [n["s"] for n in astq.walk(kv[0]["init"]) if n.get("k") == "StringLiteral" and "s" in n]
+                oks = seq == sorted(seq)
+                run.instance(r1, "the table is searched with a binary search and its initialiser is sorted", (kv[0]["file"], kv[0]["line"]), ok=oks)
+                if not oks:
+                    out = [b for a, b in zip(seq, seq[1:]) if b < a]
+                    run.violation(r1, "generator::keywords|unsorted", "the table is looked up with a binary search but its initialiser is not sorted (`%s` follows a greater word): some keywords are never found and are declared as classes" % (out[0] if out else "?"), (kv[0]["file"], kv[0]["line"]))
         elif any(cl.endswith("detail::starts_with") for cl in callees):
             seen.add("prefix")
             lits |= set(strs)
